@@ -64,11 +64,13 @@ def attrOK (a : QName × Str) : Bool :=
 
 def attrsOK (as : AttrList) : Bool := as.all attrOK && Reader.nodupKeys as
 
-/-- a START_NS event that stands for a legal declaration; the `xml` prefix is
-    never declared -/
+/-- a START_NS event that stands for a legal declaration (the `xml` prefix may
+    be declared, with its own namespace only: `xmlns:xml="http://www.w3.org/XML/1998/namespace"`
+    is legal XML and expat reports it; the flattener never writes it, the prefix
+    being bound permanently) -/
 def nsDeclOK (p u : Str) : Bool :=
   if p.isEmpty then Reader.declLegal [] (normUri u)
-  else Reader.declLegal p u && p ≠ xmlPrefix && u ≠ noneUri
+  else Reader.declLegal p u && u ≠ noneUri
 
 /-- a preferred-prefix table the constructor may be given -/
 def prefOK (pref : List (Str × Str)) : Bool :=
@@ -272,6 +274,33 @@ def reparseX : PSt → List FEv → Option (List XEv)
           if n = n' then (reparseX ⟨rest, sc⟩ es).map ([.ev (.end_ q)] ++ endNsEvents ps ++ ·) else none
       | [] => none
   | st, .other e :: es => (reparseX st es).map (.ev e :: ·)
+
+/-- white space outside the root element is not reported by a parser
+    (`d`: number of open elements) -/
+def dropTopWs : Nat → List FEv → List FEv
+  | _, [] => []
+  | d, .start n a :: es => .start n a :: dropTopWs (d + 1) es
+  | d, .end_ n :: es => .end_ n :: dropTopWs (d - 1) es
+  | 0, .other (.text s f) :: es =>
+      if s.all Reader.isSpace then dropTopWs 0 es else .other (.text s f) :: dropTopWs 0 es
+  | d, e :: es => e :: dropTopWs d es
+
+/-- the specification-side account of `XMLParser(text)` followed by
+    `EmptyTagFilter`: tokenize, drop the white space outside the root element,
+    report namespace declarations as START_NS / END_NS events (`reparseX`) -/
+def parseText (t : Str) : Option (List XEv) :=
+  (Reader.tokenize t).bind fun toks => reparseX PSt.init (dropTopWs 0 toks)
+
+/-- no START_NS / END_NS event -/
+def noNs : XEv → Bool
+  | .ev (.startNs _ _) => false
+  | .ev (.endNs _) => false
+  | _ => true
+
+/-- a stream without namespace events: what `genshi.builder` produces (the
+    namespaces live in the qualified names only; `NamespaceFlattener` has to
+    make up every declaration) -/
+def builderShaped (xs : List XEv) : Bool := xs.all noNs
 
 /-- the hypothesis of `ser_idempotent_partial`, checked by running the flattener:
     START_NS events come in runs directly in front of their start tag, never
